@@ -25,6 +25,7 @@ pub fn run(args: &Args, out: Out) {
         "chunk-gen" => response::run_chunk_gen(args, out),
         "resp-faults" => response::run_faults(args, out),
         "status-all" => response::run_status(args, out),
+        "builder-gen" => response::run_builder(args, out),
         "exchange-gen" => exchange::run_gen(args, out),
         "upload-diskfull" => exchange::run_diskfull(args, out),
         "diskfull-child" => exchange::run_diskfull_child(args, out),
